@@ -109,8 +109,9 @@ def crate_checks(out):
             env["CARGO_NET_OFFLINE"] = "true"
             q = subprocess.run(["cargo", "check", "--offline", "--message-format=short"], cwd=d, env=env, stdout=subprocess.PIPE, stderr=subprocess.STDOUT, text=True, timeout=1800)
             if q.returncode != 0:
-                errs = [l.strip()[-260:] for l in q.stdout.splitlines() if "error" in l and "/c03crates/" in l]
-                if not errs:
+                # cargo prints paths relative to the crate (src/...); a failure inside a dependency names its absolute path
+                errs = [l.strip()[-260:] for l in q.stdout.splitlines() if re.match(r"^(src/|error\[E)", l.strip()) and "error" in l]
+                if not errs or "could not compile `conjure-" in q.stdout:
                     raise vc.ToolError("cargo check of the generated crate %s failed outside its sources:\n%s" % (name, q.stdout[-1500:]))
                 code = re.search(r"error\[(E\d+)\]", " ".join(errs))
                 out.violation("C03:compile:crate:%s:%s" % (name, code.group(1) if code else "error"),
